@@ -15,11 +15,10 @@ Definition version_order : list string := ["1987"; "2007"]%string.
 Definition version_of (has1987 has2007 : bool) : option version :=
   if has1987 then Some V1987 else if has2007 then Some V2007 else None.
 
-(* which quantity of mmasub is handed to which parameter of subsolv; which result of subsolv is the new design *)
-Definition subsolv_binding : list (string * string) :=
-  [("low", "low"); ("upp", "upp"); ("alfa", "alfa"); ("beta", "beta"); ("P", "P"); ("Q", "Q"); ("b", "b");
-   ("x0", "xval")]%string.
-Definition returned_design : string := "x"%string.
+(* self.low, self.upp and xval are handed to the parameters low, upp, x0 of subsolv (alfa, beta, P, Q, b are the formulas
+   below); the FIRST result of subsolv is returned as the new design *)
+Definition subsolv_binding : list (string * string) := [("low", "low"); ("upp", "upp"); ("x0", "xval")]%string.
+Definition returned_index : nat := 0.
 
 Section MMAform.
   Context {K : Type} `{Num K} `{NumOrd K}.
@@ -232,15 +231,17 @@ Section MMAform.
       let d := newton D epsi st in
       linesearch maxittt epsi (norm (residual_st D epsi st)) (step_length D st d) st d st.
 
-    (* inner loop, `left` = maxittt - ittt; result: state and whether the loop ended because the residual test failed
-       (i.e. residumax <= 0.9*epsi) *)
-    Fixpoint inner (left : nat) (epsi : K) (st : sstate) : sstate * bool :=
-      if nltb (dec 9 10 * epsi) (residumax (residual_st D epsi st)) then
+    (* inner loop:  while residumax > 0.9*epsi and ittt < maxittt:  ittt += 1; Newton step.
+       `left` is structural fuel, used with left + ittt = maxittt (so the O branch below is never reached with a true test);
+       result: the state and whether the loop ended with the residual test false, i.e. residumax <= 0.9*epsi *)
+    Fixpoint inner (left ittt : nat) (epsi : K) (st : sstate) : sstate * bool :=
+      let rm := residumax (residual_st D epsi st) in
+      if inner_test epsi rm ittt maxittt then
         match left with
         | O => (st, false)
-        | S l => inner l epsi (newton_step epsi st)
+        | S l => inner l (S ittt) epsi (newton_step epsi st)
         end
-      else (st, true).
+      else (st, negb (nltb (dec 9 10 * epsi) rm)).
 
     (* outer loop; result: final state, the last epsi that was used, whether its inner loop ended normally
        (false when the loop body never ran) *)
@@ -248,7 +249,7 @@ Section MMAform.
       if outer_test epsimin epsi then
         match fuel with
         | O => None
-        | S f => let r := inner maxittt epsi st in outer f epsimin (epsi_next epsi) (fst r) epsi (snd r)
+        | S f => let r := inner maxittt 0 epsi st in outer f epsimin (epsi_next epsi) (fst r) epsi (snd r)
         end
       else Some (st, last, ok).
 
